@@ -9,3 +9,10 @@ import Bw.Props.C15
 #print axioms Bw.Props.C15.strip_b_once
 #print axioms Bw.Props.C15.root_nearest
 #print axioms Bw.Props.C15.no_root_errs
+#print axioms Bw.Props.C15.glob_all
+#print axioms Bw.Props.C15.glob_exact
+#print axioms Bw.Props.C15.glob_ext
+#print axioms Bw.Props.C15.glob_dir_rec
+#print axioms Bw.Props.C15.glob_name_anywhere
+#print axioms Bw.Props.C15.anyMatch_cons_true
+#print axioms Bw.Props.C15.terminal_default_examines_all
